@@ -683,7 +683,7 @@ def unpack(eng, val, n):
 
 # ---------------------------------------------------------------- attribute access
 STR_METHODS = {"format", "encode", "decode", "startswith", "endswith", "lstrip", "rstrip", "strip", "split",
-               "lower", "upper", "join", "hexdigest", "replace", "isdigit"}
+               "lower", "upper", "join", "hexdigest", "replace", "isdigit", "isalnum", "isalpha"}
 
 
 def getattr_(eng, base, attr, node):
@@ -1165,7 +1165,7 @@ def str_method(eng, recv, name, args, kw, n):
         return P(BOOL, z3.PrefixOf(eng.term(args[0], STR), s))
     if name == "endswith":
         return P(BOOL, z3.SuffixOf(eng.term(args[0], STR), s))
-    if name in ("lstrip", "rstrip", "strip", "split", "lower", "upper", "replace", "isdigit"):
+    if name in ("lstrip", "rstrip", "strip", "split", "lower", "upper", "replace", "isdigit", "isalnum", "isalpha"):
         return eng.reg.str_ws_method(eng, recv, name, args, kw, n)
     raise Unsupported("str method %s" % name)
 
